@@ -114,6 +114,7 @@ class T:
     def __truediv__(s, o): return s._bin("div", o)
     def __rtruediv__(s, o): return s._bin("div", o, True)
     def __pow__(s, o): return s._bin("pow", o)
+    def __rpow__(s, o): return s._bin("pow", o, True)
     def __neg__(s): return T(fn("neg", 1)(s.e))
     def __abs__(s): return T(fn("abs", 1)(s.e))
     def __getitem__(s, k): return T(fn("getitem", 2)(s.e, tv(k if not isinstance(k, slice) else ("slice", k.start, k.stop, k.step))))
